@@ -586,6 +586,25 @@ def table_index_terms(o, table_pred, writes_only=False):
     return uniq
 
 
+def fill_site(facts, root, opaque):
+    """the function that holds the table-fill loop: `root` itself, or - when the per-square loop was split out - the one private helper that
+    only `root` calls and that writes a table slot indexed through a magic entry"""
+    def has_write(nm):
+        try:
+            outs = Engine(facts, opaque=opaque, max_paths=4000).run(nm)
+        except PathLimit:
+            return False
+        for o in outs:
+            for it in table_index_terms(o, lambda t_: True, writes_only=True):
+                if index_form(it)[1]:
+                    return True
+        return False
+    if has_write(root):
+        return root
+    helpers = [h for h in sorted(facts.only_through({root})) if h != root and facts.fns[h].kind != 'Closure' and has_write(h)]
+    return helpers[0] if len(helpers) == 1 else root
+
+
 def r3_index(ctx):
     """writer (engine make_table), reader (get_*_targets, checked in R5) and generator (try_make_table) compute the same slot:
     offset + (((blockers & mask) * magic) >> shift), the generator without the offset.  The expressions are taken where the tables
@@ -595,6 +614,7 @@ def r3_index(ctx):
     is_local_table = lambda t: True
     for name, want, what, opq in ((MT + 'make_table', FULL_SHAPE, 'offset + (((blockers & mask) * magic) >> shift)', {MT + 'slider_moves'}),
                                   (PM + 'try_make_table', CORE_SHAPE, '((blockers & mask) * magic) >> shift', {PM + 'SlidingPiece::targets'})):
+        name = fill_site(facts, name, opq)
         try:
             outs = Engine(facts, opaque=opq, max_paths=4000).run(name)
         except PathLimit:
@@ -1015,9 +1035,9 @@ def r7_fill_loops(ctx):
             return
         for i, e in enumerate(v[1]):
             masks.append((i, dict(e[3])['mask']))
-    n1 = subset_walk(ctx, rule, MT + 'make_table', {MT + 'slider_moves'}, MT + 'slider_moves', masks, 'engine table')
+    n1 = subset_walk(ctx, rule, fill_site(facts, MT + 'make_table', {MT + 'slider_moves'}), {MT + 'slider_moves'}, MT + 'slider_moves', masks, 'engine table')
     gm = [(i, relevant_mask(i, d)) for d in (ROOK_DIRS, BISHOP_DIRS) for i in range(64)]
-    n2 = subset_walk(ctx, rule, PM + 'try_make_table', {PM + 'SlidingPiece::targets'}, PM + 'SlidingPiece::targets', gm,
+    n2 = subset_walk(ctx, rule, fill_site(facts, PM + 'try_make_table', {PM + 'SlidingPiece::targets'}), {PM + 'SlidingPiece::targets'}, PM + 'SlidingPiece::targets', gm,
                      'generator collision test')
     ctx.floor(rule, 'subset-walk steps evaluated', (n1 or 0) + (n2 or 0), 2 * (102400 + 5248))
 
